@@ -174,14 +174,15 @@ func checkC01(r *RunResult) []Violation {
 	// (i) a client request reaching a target of the generation needs every target's 2xx before it
 	for i := range r.H.Events {
 		e := &r.H.Events[i]
-		if e.Kind != "tgt.recv" || !gen[e.Target] {
+		// request bytes on the wire to a new target (net.write) or a request read by it (tgt.recv)
+		if (e.Kind != "tgt.recv" && e.Kind != "net.write") || !gen[e.Target] {
 			continue
 		}
 		for t := range gen {
 			f := first2xx[t]
 			if f == nil || f.Seq > e.Seq {
 				out = append(out, Violation{Prop: "C01", Clause: "traffic-before-all-healthy",
-					Msg: fmt.Sprintf("client request %s reached new target %s at #%d (t=%v) but target %s had not answered any probe with 2xx by then", e.Req, e.Target, e.Seq, e.T, t)})
+					Msg: fmt.Sprintf("client request %s%s reached new target %s at #%d (t=%v) but target %s had not answered any probe with 2xx by then", e.Req, e.Obj, e.Target, e.Seq, e.T, t)})
 				break
 			}
 		}
@@ -224,7 +225,7 @@ func checkC01(r *RunResult) []Violation {
 		// by (i) only if a 2xx is missing; here: never, even if all became healthy late)
 		for i := range r.H.Events {
 			e := &r.H.Events[i]
-			if e.Kind == "tgt.recv" && gen[e.Target] {
+			if (e.Kind == "tgt.recv" || e.Kind == "net.write") && gen[e.Target] {
 				out = append(out, Violation{Prop: "C01", Clause: "failed-deploy-target-got-traffic",
 					Msg: fmt.Sprintf("deploy failed but its target %s received client request %s at #%d", e.Target, e.Req, e.Seq)})
 				break
